@@ -219,7 +219,7 @@ Definition header_rules (c : cfg) (pp p : option bytes) (x : bytes) : Prop :=
       h_prev x = dsha pr /\
       (validate_difficulty c = true ->
        h_bits x = compact (next_target (max_target c) pp p) /\
-       (pow_value x <= next_target (max_target c) pp p)%N)
+       (pow_value x <= from_compact (h_bits x))%N)
   end.
 
 Lemma check_header_rules c pp p x : check_header c pp p x = None <-> header_rules c pp p x.
@@ -229,7 +229,7 @@ Proof.
     + apply bytes_eqb_eq in E1. destruct (validate_difficulty c).
       * destruct (N.eqb (h_bits x) (compact (next_target (max_target c) pp (Some pr)))) eqn:E2; cbn [negb].
         -- apply N.eqb_eq in E2.
-           destruct (N.ltb (next_target (max_target c) pp (Some pr)) (pow_value x)) eqn:E3.
+           destruct (N.ltb (from_compact (h_bits x)) (pow_value x)) eqn:E3.
            ++ apply N.ltb_lt in E3. split; [discriminate|]. intros [_ H]. destruct (H eq_refl) as [_ H']. lia.
            ++ apply N.ltb_ge in E3. split; auto.
         -- apply N.eqb_neq in E2. split; [discriminate|]. intros [_ H]. destruct (H eq_refl) as [H' _]. congruence.
@@ -569,7 +569,8 @@ Section Repair.
 Variable sha256 : bytes -> bytes.
 Local Notation dsha := (dsha sha256).
 Local Notation scan := (scan sha256).
-Local Notation repair := (repair sha256).
+Local Notation repair := (repair_links sha256).
+Local Notation links_fail := (links_fail sha256).
 Local Notation repair_genesis_ok := (repair_genesis_ok sha256).
 
 (* ------------------------------------------------------------------------------------------ *)
@@ -693,9 +694,9 @@ Qed.
 Theorem repair_spec c s start : tight s ->
   let s' := repair c s start in
   let H := stored_chain s in
-  (s' = s /\ linked (skipn start H) /\
+  (links_fail c s start = None /\ s' = s /\ linked (skipn start H) /\
      (start = 0 -> forall x, nth_error H 0 = Some x -> repair_genesis_ok c x = true))
-  \/ (exists k, k < length H /\
+  \/ (exists k, links_fail c s start = Some k /\ k < length H /\
         io s' = firstn (HS * (k - 1)) (io s) /\ hsize s' = k - 1 /\ missing s' = missing s /\
         stored_chain s' = firstn (k - 1) H /\ tight s' /\
         linked (skipn start (firstn k H)) /\
@@ -704,11 +705,11 @@ Theorem repair_spec c s start : tight s ->
          \/ (start < k /\ exists x y, nth_error H (k - 1) = Some x /\ nth_error H k = Some y /\
                                       h_prev y <> dsha x))).
 Proof.
-  intro T. cbn zeta. unfold repair. rewrite (repair_hs s start T).
+  intro T. cbn zeta. unfold repair_links, C07.links_fail. rewrite (repair_hs s start T).
   pose proof (tight_wf s T) as W. unfold wf in W.
   assert (LH : length (stored_chain s) = hsize s) by apply chunks_length.
   destruct (skipn start (stored_chain s)) as [|x r] eqn:Es.
-  { left. cbn [repair_fail]. split; [reflexivity|]. split; [exact I|].
+  { left. cbn [repair_fail]. split; [reflexivity|]. split; [reflexivity|]. split; [exact I|].
     intros -> y Hy. cbn [skipn] in Es. rewrite Es in Hy. discriminate. }
   assert (Lx : length (stored_chain s) = start + S (length r)).
   { apply (f_equal (@length _)) in Es. rewrite skipn_length in Es. cbn [length] in Es. lia. }
@@ -727,7 +728,7 @@ Proof.
   - apply andb_true_iff in Eg as [E0 Eg]. apply Nat.eqb_eq in E0. subst start.
     apply negb_true_iff in Eg.
     right. exists 0. destruct (Cut 0 ltac:(lia)) as [C1 C2]. cbn [Nat.sub] in *.
-    split; [lia|]. cbn [io hsize missing]. split; [reflexivity|]. split; [exact C1|]. split; [reflexivity|].
+    split; [reflexivity|]. split; [lia|]. cbn [io hsize missing]. split; [reflexivity|]. split; [exact C1|]. split; [reflexivity|].
     split; [unfold stored_chain; cbn [io hsize]; rewrite C1; exact C2|].
     split; [unfold tight; cbn [io hsize]; reflexivity|].
     split; [exact I|]. split; [intros _ Hk; lia|]. left. split; [reflexivity|]. split; [reflexivity|].
@@ -736,7 +737,7 @@ Proof.
     + destruct Hsc as (i & -> & Hi & L1 & L2).
       right. exists (S start + i). destruct (Cut (S start + i) ltac:(lia)) as [C1 C2].
       replace (S start + i - 1) with (start + i) in * by lia.
-      split; [lia|]. cbn [io hsize missing]. split; [reflexivity|]. split; [exact C1|]. split; [reflexivity|].
+      split; [reflexivity|]. split; [lia|]. cbn [io hsize missing]. split; [reflexivity|]. split; [exact C1|]. split; [reflexivity|].
       split; [unfold stored_chain; cbn [io hsize]; rewrite C1; exact C2|].
       split; [unfold tight; cbn [io hsize]; reflexivity|].
       split; [|split].
@@ -749,7 +750,7 @@ Proof.
         destruct (first_break x r i L1 L2 Hi) as (a & b & Ha & Hb & Hne).
         exists a, b. rewrite (Hnth i) in Ha. split; [exact Ha|]. split; [|exact Hne].
         rewrite <- Hb. change (nth_error r i) with (nth_error (x :: r) (S i)). rewrite Hnth. f_equal. lia.
-    + left. split; [reflexivity|]. split; [exact Hsc|].
+    + left. split; [reflexivity|]. split; [reflexivity|]. split; [exact Hsc|].
       intros -> y Hy. cbn [Nat.eqb andb] in Eg. apply negb_false_iff in Eg.
       pose proof (Hnth 0) as Hn. change (0 + 0) with 0 in Hn. rewrite <- Hn in Hy. cbn [nth_error] in Hy. inversion Hy; subst. exact Eg.
 Qed.
@@ -758,9 +759,12 @@ Qed.
 Definition open_start (c : cfg) (file : bytes) : nat :=
   if Nat.eqb (length file mod HS) 0 then repair_start c else 0.
 
+(* open() up to the link scan *)
+Definition load_links (c : cfg) (file : bytes) : st :=
+  repair c (mkSt file (length file / HS) []) (open_start c file).
 Lemma load_repair_eq c file :
-  load_repair sha256 c file = repair c (mkSt file (length file / HS) []) (open_start c file).
-Proof. unfold load_repair, open_start. destruct (Nat.eqb (length file mod HS) 0); reflexivity. Qed.
+  load_links c file = repair c (mkSt file (length file / HS) []) (open_start c file).
+Proof. reflexivity. Qed.
 
 Lemma nth_error_firstn_some {A} j (l : list A) i x : nth_error (firstn j l) i = Some x -> nth_error l i = Some x.
 Proof.
@@ -779,8 +783,8 @@ Qed.
 (* open() on ANY file content: the loaded chain is a prefix of the file, in whole headers unless nothing
    was cut, and links from the height where the check starts; with the check starting at 0 its first
    header is the genesis block *)
-Theorem open_linked_prefix c file :
-  let s := load_repair sha256 c file in
+Theorem open_linked_prefix_links c file :
+  let s := load_links c file in
   let H := chunks (length file / HS) file in
   io s = firstn (length (io s)) file /\
   (io s = file \/ length (io s) = HS * hsize s) /\
@@ -794,7 +798,7 @@ Proof.
   assert (T : tight s0) by reflexivity.
   assert (H0 : stored_chain s0 = chunks (length file / HS) file) by reflexivity.
   assert (LH : length (chunks (length file / HS) file) = length file / HS) by apply chunks_length.
-  destruct (repair_spec c s0 (open_start c file) T) as [(-> & L & G) | (k & Hk & Hio & Hsz & Hm & Hsc & T' & L & G & _)].
+  destruct (repair_spec c s0 (open_start c file) T) as [(_ & -> & L & G) | (k & _ & Hk & Hio & Hsz & Hm & Hsc & T' & L & G & _)].
   - cbn [io hsize missing s0]. rewrite firstn_all. rewrite H0 in *.
     repeat split; auto. rewrite firstn_all2 by lia. reflexivity.
   - rewrite H0 in *. rewrite LH in Hk. cbn [io s0] in Hio.
@@ -810,8 +814,8 @@ Proof.
 Qed.
 
 (* the part of repair_spec that says how much is dropped *)
-Theorem open_drops_from_first_break c file :
-  let s := load_repair sha256 c file in
+Theorem open_drops_links c file :
+  let s := load_links c file in
   let H := chunks (length file / HS) file in
   let start := open_start c file in
   (io s = file /\ hsize s = length file / HS)
@@ -824,7 +828,7 @@ Proof.
   cbn zeta. rewrite load_repair_eq.
   set (s0 := mkSt file (length file / HS) []).
   assert (T : tight s0) by reflexivity.
-  destruct (repair_spec c s0 (open_start c file) T) as [(-> & _) | (k & Hk & Hio & Hsz & _ & _ & _ & L & _ & B)].
+  destruct (repair_spec c s0 (open_start c file) T) as [(_ & -> & _) | (k & _ & Hk & Hio & Hsz & _ & _ & _ & L & _ & B)].
   - left. split; reflexivity.
   - right. exists k. auto.
 Qed.
@@ -837,11 +841,11 @@ Qed.
 
 (* a stored chain that links (and starts with the genesis block), cut at ANY byte offset m: exactly the
    m / 112 whole headers are loaded, i.e. only the partial header is lost *)
-Theorem open_after_cut c hs m :
+Theorem open_after_cut_links c hs m :
   Forall (fun x : bytes => length x = HS) hs -> linked hs ->
   (forall x, nth_error hs 0 = Some x -> repair_genesis_ok c x = true) ->
   m <= length (concat hs) ->
-  load_repair sha256 c (firstn m (concat hs)) = mkSt (firstn m (concat hs)) (m / HS) [].
+  load_links c (firstn m (concat hs)) = mkSt (firstn m (concat hs)) (m / HS) [].
 Proof.
   intros Hlen L G Hm.
   set (file := firstn m (concat hs)).
@@ -853,8 +857,8 @@ Proof.
     - apply chunks_ext. unfold file. apply firstn_firstn_le. clear. euc.
     - rewrite <- (chunks_firstn_list (m / HS) (length hs)) by exact Hq.
       rewrite <- (app_nil_r (concat hs)). rewrite (chunks_concat hs Hlen []). reflexivity. }
-  destruct (open_drops_from_first_break c file) as [[Hio Hsz] | (k & Hk & _ & _ & _ & B)].
-  - destruct (open_linked_prefix c file) as (_ & _ & _ & _ & Hmi & _).
+  destruct (open_drops_links c file) as [[Hio Hsz] | (k & Hk & _ & _ & _ & B)].
+  - destruct (open_linked_prefix_links c file) as (_ & _ & _ & _ & Hmi & _).
     apply st_eq; cbn [io hsize missing]; [exact Hio | rewrite Hsz, Lf; reflexivity | exact Hmi].
   - exfalso. rewrite HH in *. destruct B as [(_ & _ & x & Hx & Hg) | (Hsk & x & y & Hx & Hy & Hne)].
     + apply nth_error_firstn_some in Hx. rewrite (G x Hx) in Hg. discriminate.
@@ -903,15 +907,16 @@ Proof. intro H. apply nth_error_Some. congruence. Qed.
 (* A linked stored chain in which ONE header above the start of the check is overwritten so that the damage
    shows in a prev-hash link (its own prev field no longer matches, or its successor no longer points to it):
    the loaded chain is the undamaged prefix, cut one before the damaged header or exactly at it. *)
-Theorem open_after_single_damage c hs d x' :
+Theorem open_single_damage_links c hs d x' :
   Forall (fun x : bytes => length x = HS) hs -> linked hs -> length x' = HS ->
+  (forall x, nth_error hs 0 = Some x -> repair_genesis_ok c x = true) ->
   repair_start c < d -> d < length hs ->
   ((forall p, nth_error hs (d - 1) = Some p -> h_prev x' <> dsha p)
    \/ (exists y, nth_error hs (S d) = Some y /\ h_prev y <> dsha x')) ->
-  let s := load_repair sha256 c (concat (replace_nth d x' hs)) in
+  let s := load_links c (concat (replace_nth d x' hs)) in
   (hsize s = d - 1 \/ hsize s = d) /\ io s = firstn (HS * hsize s) (concat hs).
 Proof.
-  intros Hlen L Lx Hsd Hd Det. cbn zeta.
+  intros Hlen L Lx Gen Hsd Hd Det. cbn zeta.
   set (hs' := replace_nth d x' hs). set (file := concat hs').
   assert (Hlen' : Forall (fun x : bytes => length x = HS) hs').
   { unfold hs', replace_nth. apply Forall_app. split; [apply Forall_firstn'; exact Hlen|].
@@ -941,12 +946,12 @@ Proof.
             forall i a b, repair_start c <= i -> nth_error l i = Some a -> nth_error l (S i) = Some b -> h_prev b = dsha a).
   { intros l Hl i a b Hi Ha Hb. apply (linked_nth _ Hl (i - repair_start c) a b); rewrite nth_error_skipn.
     - rewrite <- Ha. f_equal. lia. - rewrite <- Hb. f_equal. lia. }
-  destruct (open_drops_from_first_break c file) as [[Hio Hsz] | (k & Hk & Hsz & Hio & Lk & B)].
-  - exfalso. destruct (open_linked_prefix c file) as (_ & _ & _ & _ & _ & Hsc & Hl & _).
+  destruct (open_drops_links c file) as [[Hio Hsz] | (k & Hk & Hsz & Hio & Lk & B)].
+  - exfalso. destruct (open_linked_prefix_links c file) as (_ & _ & _ & _ & _ & Hsc & Hl & _).
     rewrite Hst, Hsc, HH, Hsz, Hdiv, <- Ll, firstn_all in Hl.
     apply (Brk hs' (Lnk hs' Hl)). reflexivity.
-  - rewrite Hst, HH in *. destruct B as [(-> & E0 & _) | (Hsk & x & y & Hx & Hy & Hne)].
-    { exfalso. clear - E0. unfold repair_start, CHUNK in E0. destruct (max_key (checkpoints c)); lia. }
+  - rewrite Hst, HH in *. destruct B as [(-> & E0 & x & Hx & Hg) | (Hsk & x & y & Hx & Hy & Hne)].
+    { exfalso. unfold hs' in Hx. rewrite replace_nth_lt in Hx by lia. rewrite (Gen x Hx) in Hg. discriminate. }
     assert (Hdk : d <= k).
     { destruct (Nat.le_gt_cases d k) as [H|H]; [exact H|]. exfalso. apply Hne.
       unfold hs' in Hx, Hy. rewrite replace_nth_lt in Hx, Hy by lia.
@@ -961,6 +966,359 @@ Proof.
     rewrite !firstn_app, Lc. replace (HS * (k - 1) - HS * d) with 0 by (unfold HS; lia). reflexivity.
 Qed.
 End Repair.
+
+(* ------------------------------------------------------------------------------------------ *)
+(* repair() = link scan, then validation of the tip; open()                                   *)
+(* ------------------------------------------------------------------------------------------ *)
+Section RepairTip.
+Variables sha256 sha512 rmd160 : bytes -> bytes.
+Local Notation dsha := (dsha sha256).
+Local Notation check_header := (check_header sha256 sha512 rmd160).
+Local Notation tip_check := (tip_check sha256 sha512 rmd160).
+Local Notation load_repair := (load_repair sha256 sha512 rmd160).
+Local Notation load_links := (load_links sha256).
+Local Notation links_fail := (links_fail sha256).
+Local Notation repair_links := (repair_links sha256).
+Local Notation linked := (linked sha256).
+Local Notation repair_genesis_ok := (repair_genesis_ok sha256).
+Local Notation chain_rules := (chain_rules sha256 sha512 rmd160).
+Local Notation header_rules := (header_rules sha256 sha512 rmd160).
+
+Lemma nth_error_chunks n b k : k < n -> nth_error (chunks n b) k = Some (read b k).
+Proof.
+  intro H. replace n with (k + S (n - k - 1)) by lia. rewrite chunks_add.
+  rewrite nth_error_app2 by (rewrite chunks_length; lia). rewrite chunks_length, Nat.sub_diag.
+  reflexivity.
+Qed.
+
+Lemma below_prev n iob h : h <= n ->
+  below1 iob h = prev1 (chunks n iob) h /\ below2 iob h = prev2 (chunks n iob) h.
+Proof.
+  intro H. destruct h as [|[|k]]; cbn [below1 below2 prev1 prev2]; rewrite ?nth_error_chunks by lia; auto.
+Qed.
+
+(* the last header obeys the rules relative to the two headers below it *)
+Definition tip_ok (c : cfg) (H : list bytes) : Prop :=
+  match length H with
+  | O => True
+  | S n => forall x, nth_error H n = Some x -> check_header c (prev2 H n) (prev1 H n) x = None
+  end.
+
+Lemma cut_facts s k : tight s -> k <= hsize s ->
+  let io' := firstn (HS * k) (io s) in
+  length io' = HS * k /\ length io' / HS = k /\ chunks k io' = firstn k (stored_chain s).
+Proof.
+  intros T Hk. pose proof (tight_wf s T) as W. unfold wf in W. cbn zeta.
+  assert (L : length (firstn (HS * k) (io s)) = HS * k) by (rewrite firstn_length; unfold HS in *; lia).
+  split; [exact L|]. split.
+  - rewrite L, Nat.mul_comm. apply Nat.div_mul. unfold HS; lia.
+  - rewrite chunks_of_firstn. unfold stored_chain. rewrite chunks_firstn_list by lia. reflexivity.
+Qed.
+
+Lemma tip_check_spec c s start : tight s ->
+  let H := stored_chain s in
+  let n := hsize s in
+  let s' := tip_check c s start in
+  (s' = s /\ (Nat.max start 1 < n -> tip_ok c H))
+  \/ (Nat.max start 1 < n /\ ~ tip_ok c H /\
+      io s' = firstn (HS * (n - 1)) (io s) /\ hsize s' = n - 1 /\ missing s' = missing s /\ tight s' /\
+      stored_chain s' = firstn (n - 1) H).
+Proof.
+  intro T. cbn zeta. unfold C07.tip_check.
+  destruct (Nat.leb 1 (hsize s) && Nat.leb (Nat.max start 1) (hsize s - 1)) eqn:E.
+  2:{ left. split; [reflexivity|]. intro Hn. exfalso.
+      apply andb_false_iff in E. destruct E as [E|E]; [apply Nat.leb_gt in E | apply Nat.leb_gt in E]; lia. }
+  apply andb_true_iff in E as [E1 E2]. apply Nat.leb_le in E1, E2.
+  destruct (hsize s) as [|m] eqn:En; [lia|]. replace (S m - 1) with m in * by lia.
+  destruct (below_prev (S m) (io s) m ltac:(lia)) as [B1 B2].
+  assert (Hx : nth_error (stored_chain s) m = Some (read (io s) m)).
+  { unfold stored_chain. rewrite En. apply nth_error_chunks. lia. }
+  assert (LH : length (stored_chain s) = S m) by (unfold stored_chain; rewrite chunks_length; exact En).
+  assert (Tip : tip_ok c (stored_chain s) <->
+                check_header c (below2 (io s) m) (below1 (io s) m) (read (io s) m) = None).
+  { unfold tip_ok. rewrite LH. unfold stored_chain at 2 3. rewrite En, <- B1, <- B2. split.
+    - intro H. apply H. exact Hx.
+    - intros H x Hx'. rewrite Hx in Hx'. inversion Hx'; subst. exact H. }
+  destruct (check_header c (below2 (io s) m) (below1 (io s) m) (read (io s) m)) as [e|] eqn:Ec.
+  - right. split; [lia|]. split; [intro H; apply Tip in H; discriminate|].
+    assert (Hm : m <= hsize s) by lia.
+    destruct (cut_facts s m T Hm) as (C1 & C2 & C3). cbn [io hsize missing].
+    split; [reflexivity|]. split; [exact C2|]. split; [reflexivity|].
+    split; [unfold tight; cbn [io hsize]; reflexivity|].
+    unfold stored_chain at 1. cbn [io hsize]. rewrite C2. exact C3.
+  - left. split; [reflexivity|]. intros _. apply Tip. reflexivity.
+Qed.
+
+Lemma load_repair_cases c file :
+  let s0 := mkSt file (length file / HS) [] in
+  load_repair c file =
+  match links_fail c s0 (open_start c file) with
+  | None => tip_check c s0 (open_start c file)
+  | Some _ => load_links c file
+  end.
+Proof.
+  cbn zeta. unfold C07.load_repair, C07.load_links, open_start, repair.
+  destruct (Nat.eqb (length file mod HS) 0); reflexivity.
+Qed.
+
+(* a chain that links from `start` (and begins with the genesis block when start = 0) passes the link scan *)
+Lemma links_ok_none c s start : tight s ->
+  linked (skipn start (stored_chain s)) ->
+  (start = 0 -> forall x, nth_error (stored_chain s) 0 = Some x -> repair_genesis_ok c x = true) ->
+  links_fail c s start = None.
+Proof.
+  intros T L G.
+  destruct (repair_spec sha256 c s start T) as [(Hn & _) | (k & _ & _ & _ & _ & _ & _ & _ & _ & _ & B)]; [exact Hn|].
+  exfalso. destruct B as [(-> & E0 & x & Hx & Hg) | (Hsk & x & y & Hx & Hy & Hne)].
+  - rewrite (G E0 x Hx) in Hg. discriminate.
+  - apply Hne. apply (linked_nth sha256 _ L (k - 1 - start) x y); rewrite nth_error_skipn.
+    + rewrite <- Hx. f_equal. lia.
+    + rewrite <- Hy. f_equal. lia.
+Qed.
+
+Lemma chain_rules_firstn c j hs : chain_rules c hs -> chain_rules c (firstn j hs).
+Proof.
+  intros R k x Hk.
+  assert (Hkj : k < j).
+  { apply nth_error_some_lt in Hk. rewrite firstn_length in Hk. lia. }
+  specialize (R k x (nth_error_firstn_some j hs k x Hk)).
+  destruct k as [|[|k]]; cbn [prev1 prev2] in *.
+  - exact R.
+  - rewrite nth_error_firstn_lt by lia. exact R.
+  - rewrite !nth_error_firstn_lt by lia. exact R.
+Qed.
+
+Lemma chain_rules_linked c hs : chain_rules c hs -> linked hs.
+Proof.
+  intro R. apply nth_linked. intros i a b Ha Hb.
+  specialize (R (S i) b Hb). cbn [prev1] in R. rewrite Ha in R. cbn [C07.header_rules] in R. tauto.
+Qed.
+
+Lemma chain_rules_tip_ok c hs : chain_rules c hs -> tip_ok c hs.
+Proof.
+  intro R. unfold tip_ok. destruct (length hs) as [|n]; [exact I|].
+  intros x Hx. apply check_header_rules. apply (R n x Hx).
+Qed.
+
+Lemma chain_rules_genesis c hs g : genesis c = Some g -> chain_rules c hs ->
+  forall x, nth_error hs 0 = Some x -> repair_genesis_ok c x = true.
+Proof.
+  intros G R x Hx. specialize (R 0 x Hx). cbn [prev1 prev2 C07.header_rules] in R. rewrite G in R.
+  unfold C07.repair_genesis_ok. rewrite G. apply bytes_eqb_eq. exact R.
+Qed.
+
+(* open() on ANY file content *)
+Theorem open_linked_prefix c file :
+  let s := load_repair c file in
+  let H := chunks (length file / HS) file in
+  let start := open_start c file in
+  io s = firstn (length (io s)) file /\
+  (io s = file \/ length (io s) = HS * hsize s) /\
+  tight s /\ hsize s <= length file / HS /\ missing s = [] /\
+  stored_chain s = firstn (hsize s) H /\
+  linked (skipn start (stored_chain s)) /\
+  (start = 0 -> forall x, nth_error (stored_chain s) 0 = Some x -> repair_genesis_ok c x = true) /\
+  (hsize s = length file / HS -> Nat.max start 1 < hsize s -> tip_ok c (stored_chain s)).
+Proof.
+  cbn zeta. rewrite load_repair_cases.
+  set (s0 := mkSt file (length file / HS) []). set (start := open_start c file).
+  assert (T : tight s0) by reflexivity.
+  assert (LH : length (chunks (length file / HS) file) = length file / HS) by apply chunks_length.
+  pose proof (open_linked_prefix_links sha256 c file) as Old. cbn zeta in Old. fold start in Old.
+  destruct (repair_spec sha256 c s0 start T)
+    as [(Hn & Hrl & L & G) | (k & Hn & Hk & _ & Hsz & _)]; rewrite Hn.
+  - assert (Hll : load_links c file = s0) by exact Hrl.
+    rewrite Hll in Old.
+    destruct (tip_check_spec c s0 start T) as [(-> & Tip) | (Hlt & Hbad & Hio & Hsz & Hm & T' & Hsc)].
+    + destruct Old as (O1 & O2 & O3 & O4 & O5 & O6 & O7 & O8).
+      repeat (split; [assumption|]). intros _ Hlt. apply Tip. exact Hlt.
+    + cbn [io hsize missing s0] in Hio, Hsz, Hm.
+      assert (HH : stored_chain s0 = chunks (length file / HS) file) by reflexivity. rewrite HH in *.
+      destruct (cut_facts s0 (length file / HS - 1) T ltac:(cbn [hsize s0]; lia)) as (C1 & _ & _).
+      cbn [io s0] in C1. rewrite Hsz, Hsc, Hm.
+      split; [rewrite Hio, C1; reflexivity|]. split; [right; rewrite Hio; exact C1|].
+      split; [exact T'|]. split; [lia|]. split; [reflexivity|]. split; [reflexivity|]. split; [|split].
+      * rewrite skipn_firstn_comm. apply linked_firstn. exact L.
+      * intros E x Hx. apply (G E x). apply nth_error_firstn_some in Hx. exact Hx.
+      * cbn [hsize s0] in Hlt. intros E. lia.
+  - destruct Old as (O1 & O2 & O3 & O4 & O5 & O6 & O7 & O8).
+    repeat (split; [assumption|]).
+    assert (Hh : hsize (load_links c file) = k - 1) by exact Hsz.
+    rewrite Hh. cbn [stored_chain s0 io hsize] in Hk. unfold stored_chain in Hk. cbn [io hsize s0] in Hk.
+    rewrite LH in Hk. intro E. lia.
+Qed.
+
+(* how much is dropped, for ANY file *)
+Theorem open_drops_from_first_break c file :
+  let s := load_repair c file in
+  let H := chunks (length file / HS) file in
+  let n := length file / HS in
+  let start := open_start c file in
+  (io s = file /\ hsize s = n /\ (Nat.max start 1 < n -> tip_ok c H))
+  \/ (Nat.max start 1 < n /\ ~ tip_ok c H /\ linked (skipn start H) /\
+      hsize s = n - 1 /\ io s = firstn (HS * (n - 1)) file)
+  \/ (exists k, k < length H /\ hsize s = k - 1 /\ io s = firstn (HS * (k - 1)) file /\
+        linked (skipn start (firstn k H)) /\
+        ((k = 0 /\ start = 0 /\ exists x, nth_error H 0 = Some x /\ repair_genesis_ok c x = false)
+         \/ (start < k /\ exists x y, nth_error H (k - 1) = Some x /\ nth_error H k = Some y /\
+                                      h_prev y <> dsha x))).
+Proof.
+  cbn zeta. rewrite load_repair_cases.
+  set (s0 := mkSt file (length file / HS) []). set (start := open_start c file).
+  assert (T : tight s0) by reflexivity.
+  destruct (repair_spec sha256 c s0 start T)
+    as [(Hn & _ & L & _) | (k & Hn & Hk & Hio & Hsz & _ & _ & _ & Lk & _ & B)]; rewrite Hn.
+  - destruct (tip_check_spec c s0 start T) as [(-> & Tip) | (Hlt & Hbad & Hio & Hsz & _)].
+    + left. cbn [io hsize s0]. auto.
+    + right. left. cbn [io hsize s0] in *. auto.
+  - right. right. exists k. cbn [io s0] in Hio. auto.
+Qed.
+
+(* a stored chain that obeys the rules, cut at ANY byte offset m: exactly the m / 112 whole headers are loaded *)
+Theorem open_after_cut c hs m g :
+  genesis c = Some g ->
+  Forall (fun x : bytes => length x = HS) hs -> chain_rules c hs ->
+  m <= length (concat hs) ->
+  load_repair c (firstn m (concat hs)) = mkSt (firstn m (concat hs)) (m / HS) [].
+Proof.
+  intros G Hlen R Hm.
+  set (file := firstn m (concat hs)).
+  assert (Lf : length file = m) by (unfold file; rewrite firstn_length; lia).
+  assert (Hq : m / HS <= length hs).
+  { rewrite (concat_length_HS hs Hlen) in Hm. clear - Hm. euc. }
+  assert (HH : chunks (length file / HS) file = firstn (m / HS) hs).
+  { rewrite Lf. transitivity (chunks (m / HS) (concat hs)).
+    - apply chunks_ext. unfold file. apply firstn_firstn_le. clear. euc.
+    - rewrite <- (chunks_firstn_list (m / HS) (length hs)) by exact Hq.
+      rewrite <- (app_nil_r (concat hs)). rewrite (chunks_concat hs Hlen []). reflexivity. }
+  rewrite load_repair_cases.
+  set (s0 := mkSt file (length file / HS) []).
+  assert (T : tight s0) by reflexivity.
+  assert (Hs0 : stored_chain s0 = firstn (m / HS) hs) by exact HH.
+  pose proof (chain_rules_firstn c (m / HS) hs R) as R'.
+  rewrite (links_ok_none c s0 (open_start c file) T).
+  - destruct (tip_check_spec c s0 (open_start c file) T) as [(-> & _) | (_ & Hbad & _)].
+    + unfold s0. rewrite Lf. reflexivity.
+    + exfalso. apply Hbad. rewrite Hs0. apply chain_rules_tip_ok. exact R'.
+  - rewrite Hs0. apply linked_skipn. apply (chain_rules_linked c). exact R'.
+  - intros _ x Hx. rewrite Hs0 in Hx. apply (chain_rules_genesis c _ g G R' x Hx).
+Qed.
+
+Theorem restart_after_cut_keeps_rules c hs m g :
+  genesis c = Some g ->
+  Forall (fun x : bytes => length x = HS) hs -> chain_rules c hs ->
+  m <= length (concat hs) ->
+  let s := load_repair c (firstn m (concat hs)) in
+  hsize s = m / HS /\ io s = firstn m (concat hs) /\
+  stored_chain s = firstn (m / HS) hs /\ chain_rules c (stored_chain s).
+Proof.
+  intros G Hlen R Hm. cbn zeta. rewrite (open_after_cut c hs m g G Hlen R Hm).
+  cbn [io hsize]. split; [reflexivity|]. split; [reflexivity|].
+  assert (Hq : m / HS <= length hs).
+  { rewrite (concat_length_HS hs Hlen) in Hm. clear - Hm. euc. }
+  assert (E : stored_chain (mkSt (firstn m (concat hs)) (m / HS) []) = firstn (m / HS) hs).
+  { unfold stored_chain; cbn [io hsize]. transitivity (chunks (m / HS) (concat hs)).
+    - apply chunks_ext. apply firstn_firstn_le. clear. euc.
+    - rewrite <- (chunks_firstn_list (m / HS) (length hs)) by exact Hq.
+      rewrite <- (app_nil_r (concat hs)). rewrite (chunks_concat hs Hlen []). reflexivity. }
+  split; [exact E|]. rewrite E. apply chain_rules_firstn. exact R.
+Qed.
+
+(* close writes exactly the chain in memory; reopening a chain that obeys the rules loads exactly what was stored *)
+Theorem close_reopen_exact c s f hs g :
+  genesis c = Some g ->
+  io s = concat hs -> Forall (fun x : bytes => length x = HS) hs -> chain_rules c hs ->
+  hclose s f = io s /\
+  load_repair c (hclose s f) = mkSt (io s) (length hs) [].
+Proof.
+  intros G Hio Hlen R. split; [reflexivity|]. unfold hclose. rewrite Hio.
+  pose proof (open_after_cut c hs (length (concat hs)) g G Hlen R (le_n _)) as H.
+  rewrite firstn_all in H. rewrite H. f_equal.
+  rewrite (concat_length_HS hs Hlen), Nat.mul_comm. apply Nat.div_mul. unfold HS; lia.
+Qed.
+
+(* one stored header overwritten above the start of the check, visible in a prev-hash link *)
+Theorem open_after_single_damage c hs d x' :
+  Forall (fun x : bytes => length x = HS) hs -> linked hs -> length x' = HS ->
+  (forall x, nth_error hs 0 = Some x -> repair_genesis_ok c x = true) ->
+  repair_start c < d -> d < length hs ->
+  ((forall p, nth_error hs (d - 1) = Some p -> h_prev x' <> dsha p)
+   \/ (exists y, nth_error hs (S d) = Some y /\ h_prev y <> dsha x')) ->
+  let s := load_repair c (concat (replace_nth d x' hs)) in
+  (hsize s = d - 1 \/ hsize s = d) /\ io s = firstn (HS * hsize s) (concat hs).
+Proof.
+  intros Hlen L Lx Gen Hsd Hd Det. cbn zeta.
+  pose proof (open_single_damage_links sha256 c hs d x' Hlen L Lx Gen Hsd Hd Det) as Old. cbn zeta in Old.
+  rewrite load_repair_cases.
+  set (file := concat (replace_nth d x' hs)) in *.
+  set (s0 := mkSt file (length file / HS) []).
+  assert (T : tight s0) by reflexivity.
+  destruct (repair_spec sha256 c s0 (open_start c file) T) as [(Hn & Hrl & _) | (k & Hn & _)]; rewrite Hn.
+  - (* no broken link found: impossible, the link scan alone already cuts *)
+    exfalso. assert (Hll : load_links c file = s0) by exact Hrl. rewrite Hll in Old.
+    cbn [hsize s0] in Old. destruct Old as [Hs _].
+    assert (Hlen' : Forall (fun x : bytes => length x = HS) (replace_nth d x' hs)).
+    { unfold replace_nth. apply Forall_app. split; [apply Forall_firstn'; exact Hlen|].
+      constructor; [exact Lx | apply Forall_skipn'; exact Hlen]. }
+    assert (Lf : length file / HS = length hs).
+    { unfold file. rewrite (concat_length_HS _ Hlen').
+      assert (Lr : length (replace_nth d x' hs) = length hs).
+      { unfold replace_nth. rewrite app_length, firstn_length. cbn [length]. rewrite skipn_length. lia. }
+      rewrite Lr, Nat.mul_comm. apply Nat.div_mul. unfold HS; lia. }
+    lia.
+  - exact Old.
+Qed.
+
+(* the LAST header overwritten while its prev field stays intact: no link exposes it, the tip validation does;
+   exactly the tip is dropped *)
+Theorem open_after_tip_damage c hs x' g n :
+  genesis c = Some g ->
+  Forall (fun x : bytes => length x = HS) hs -> chain_rules c hs -> length x' = HS ->
+  length hs = S n -> Nat.max (repair_start c) 1 <= n ->
+  (forall p, nth_error hs (n - 1) = Some p -> h_prev x' = dsha p) ->
+  check_header c (prev2 hs n) (prev1 hs n) x' <> None ->
+  load_repair c (concat (firstn n hs ++ [x'])) = mkSt (concat (firstn n hs)) n [].
+Proof.
+  intros G Hlen R Lx Ln Hst Hlink Hbad.
+  set (hs' := firstn n hs ++ [x']). set (file := concat hs').
+  assert (Hlen' : Forall (fun x : bytes => length x = HS) hs').
+  { unfold hs'. apply Forall_app. split; [apply Forall_firstn'; exact Hlen | constructor; [exact Lx | constructor]]. }
+  assert (Ll : length hs' = S n) by (unfold hs'; rewrite app_length, firstn_length; cbn [length]; lia).
+  assert (Lf : length file = HS * S n) by (unfold file; rewrite (concat_length_HS hs' Hlen'), Ll; reflexivity).
+  assert (Hdiv : length file / HS = S n) by (rewrite Lf, Nat.mul_comm; apply Nat.div_mul; unfold HS; lia).
+  assert (Hst' : open_start c file = repair_start c).
+  { unfold open_start. rewrite Lf, Nat.mul_comm, Nat.mod_mul by (unfold HS; lia). reflexivity. }
+  assert (HH : chunks (length file / HS) file = hs').
+  { rewrite Hdiv, <- Ll. unfold file. rewrite <- (app_nil_r (concat hs')). apply chunks_concat. exact Hlen'. }
+  assert (Hlt : forall i, i < n -> nth_error hs' i = nth_error hs i).
+  { intros i Hi. unfold hs'. rewrite nth_error_app1 by (rewrite firstn_length; lia). apply nth_error_firstn_lt. exact Hi. }
+  assert (Hn' : nth_error hs' n = Some x').
+  { unfold hs'. rewrite nth_error_app2 by (rewrite firstn_length; lia).
+    rewrite firstn_length. replace (n - Nat.min n (length hs)) with 0 by lia. reflexivity. }
+  assert (Lk : linked hs').
+  { apply nth_linked. intros i a b Ha Hb.
+    assert (Hi : S i <= n) by (apply nth_error_some_lt in Hb; lia).
+    destruct (Nat.eq_dec (S i) n) as [E|E].
+    - rewrite E, Hn' in Hb. inversion Hb; subst b. rewrite Hlt in Ha by lia.
+      apply Hlink. rewrite <- Ha. f_equal. lia.
+    - rewrite Hlt in Ha, Hb by lia. apply (linked_nth sha256 hs (chain_rules_linked c hs R) i a b Ha Hb). }
+  rewrite load_repair_cases. fold file.
+  set (s0 := mkSt file (length file / HS) []).
+  assert (T : tight s0) by reflexivity.
+  assert (Hs0 : stored_chain s0 = hs') by exact HH.
+  rewrite (links_ok_none c s0 (open_start c file) T).
+  - destruct (tip_check_spec c s0 (open_start c file) T) as [(_ & Tip) | (_ & _ & Hio & Hsz & Hm & _)].
+    + exfalso. apply Hbad. cbn [hsize s0] in Tip. rewrite Hdiv, Hst', Hs0 in Tip.
+      specialize (Tip ltac:(lia)). unfold tip_ok in Tip. rewrite Ll in Tip. specialize (Tip x' Hn').
+      destruct n as [|[|j]]; cbn [prev1 prev2] in *; rewrite ?Hlt in Tip by lia; exact Tip.
+    + cbn [io hsize missing s0] in Hio, Hsz, Hm. rewrite Hdiv in *. replace (S n - 1) with n in * by lia.
+      apply st_eq; cbn [io hsize missing]; [|exact Hsz | exact Hm].
+      rewrite Hio. unfold file, hs'. rewrite concat_app. apply firstn_eq_app.
+      rewrite concat_length_HS by (apply Forall_firstn'; exact Hlen). rewrite firstn_length. f_equal. lia.
+  - rewrite Hs0. apply linked_skipn. exact Lk.
+  - intros _ x Hx. rewrite Hs0 in Hx. rewrite Hlt in Hx by lia. apply (chain_rules_genesis c hs g G R x Hx).
+Qed.
+End RepairTip.
 
 (* ------------------------------------------------------------------------------------------ *)
 (* compact targets                                                                            *)
@@ -1339,7 +1697,7 @@ Lemma repair_old_refuted :
   (* ... the old loop never read the tip and kept all 37 headers ... *)
   hsize (repair_old toy w_rcfg s 0) = 37 /\
   (* ... the repaired loop drops from one before the damaged header *)
-  hsize (repair toy w_rcfg s 0) = 35.
+  hsize (repair toy toy toy w_rcfg s 0) = 35.
 Proof. vm_compute. repeat split. Qed.
 End Refuted.
 
@@ -1354,57 +1712,6 @@ Proof.
   intro H. apply compact_facts. apply N.le_lt_trans with mt; [apply next_target_le | exact H].
 Qed.
 
-(* ------------------------------------------------------------------------------------------ *)
-(* restart of a chain that obeys the rules                                                    *)
-(* ------------------------------------------------------------------------------------------ *)
-Section Restart.
-Variables sha256 sha512 rmd160 : bytes -> bytes.
-
-Lemma chain_rules_firstn c j hs :
-  chain_rules sha256 sha512 rmd160 c hs -> chain_rules sha256 sha512 rmd160 c (firstn j hs).
-Proof.
-  intros R k x Hk.
-  assert (Hkj : k < j).
-  { apply nth_error_some_lt in Hk. rewrite firstn_length in Hk. lia. }
-  specialize (R k x (nth_error_firstn_some j hs k x Hk)).
-  destruct k as [|[|k]]; cbn [prev1 prev2] in *.
-  - exact R.
-  - rewrite nth_error_firstn_lt by lia. exact R.
-  - rewrite !nth_error_firstn_lt by lia. exact R.
-Qed.
-
-Lemma chain_rules_linked c hs : chain_rules sha256 sha512 rmd160 c hs -> linked sha256 hs.
-Proof.
-  intro R. apply nth_linked. intros i a b Ha Hb.
-  specialize (R (S i) b Hb). cbn [prev1] in R. rewrite Ha in R. cbn [header_rules] in R. tauto.
-Qed.
-
-(* a stored chain that obeys the rules, cut at any byte: the m/112 whole headers are loaded and they
-   still obey the rules *)
-Theorem restart_after_cut_keeps_rules c hs m g :
-  genesis c = Some g ->
-  Forall (fun x : bytes => length x = HS) hs -> chain_rules sha256 sha512 rmd160 c hs ->
-  m <= length (concat hs) ->
-  let s := load_repair sha256 c (firstn m (concat hs)) in
-  hsize s = m / HS /\ io s = firstn m (concat hs) /\
-  stored_chain s = firstn (m / HS) hs /\ chain_rules sha256 sha512 rmd160 c (stored_chain s).
-Proof.
-  intros G Hlen R Hm. cbn zeta.
-  assert (Gen : forall x, nth_error hs 0 = Some x -> repair_genesis_ok sha256 c x = true).
-  { intros x Hx. specialize (R 0 x Hx). cbn [prev1 prev2 header_rules] in R. rewrite G in R.
-    unfold repair_genesis_ok. rewrite G. apply bytes_eqb_eq. exact R. }
-  rewrite (open_after_cut sha256 c hs m Hlen (chain_rules_linked c hs R) Gen Hm).
-  cbn [io hsize]. split; [reflexivity|]. split; [reflexivity|].
-  assert (Hq : m / HS <= length hs).
-  { rewrite (concat_length_HS hs Hlen) in Hm. clear - Hm. euc. }
-  assert (E : stored_chain (mkSt (firstn m (concat hs)) (m / HS) []) = firstn (m / HS) hs).
-  { unfold stored_chain; cbn [io hsize]. transitivity (chunks (m / HS) (concat hs)).
-    - apply chunks_ext. apply firstn_firstn_le. clear. euc.
-    - rewrite <- (chunks_firstn_list (m / HS) (length hs)) by exact Hq.
-      rewrite <- (app_nil_r (concat hs)). rewrite (chunks_concat hs Hlen []). reflexivity. }
-  split; [exact E|]. rewrite E. apply chain_rules_firstn. exact R.
-Qed.
-End Restart.
 
 (* ------------------------------------------------------------------------------------------ *)
 (* Python's int(a / b) and the retarget rule                                                  *)
@@ -1574,10 +1881,10 @@ End Lookups.
 (* open(): which checkpointed chunks count as present                                         *)
 (* ------------------------------------------------------------------------------------------ *)
 Section OpenMissing.
-Variable sha256 : bytes -> bytes.
+Variables sha256 sha512 rmd160 : bytes -> bytes.
 
-Lemma load_repair_missing c file : missing (load_repair sha256 c file) = [].
-Proof. destruct (open_linked_prefix sha256 c file) as (_ & _ & _ & _ & H & _). exact H. Qed.
+Lemma load_repair_missing c file : missing (load_repair sha256 sha512 rmd160 c file) = [].
+Proof. destruct (open_linked_prefix sha256 sha512 rmd160 c file) as (_ & _ & _ & _ & H & _). exact H. Qed.
 
 Lemma ensure_missing c s : missing (ensure_checkpointed_size c s) = missing s.
 Proof.
@@ -1589,11 +1896,11 @@ Qed.
    chunk either is flagged missing (and will be fetched before it is served) or hashes to its checkpoint *)
 Theorem open_missing_exact c file h e :
   In (h, e) (checkpoints c) ->
-  let s := hopen sha256 c file in
+  let s := hopen sha256 sha512 rmd160 c file in
   In h (missing s) \/ dsha sha256 (read_n (io s) h CHUNK) = e.
 Proof.
   intro Hin. cbn zeta. unfold hopen, get_all_missing. cbn [io missing].
-  set (s1 := ensure_checkpointed_size c (load_repair sha256 c file)).
+  set (s1 := ensure_checkpointed_size c (load_repair sha256 sha512 rmd160 c file)).
   assert (Hm : missing s1 = []) by (unfold s1; rewrite ensure_missing; apply load_repair_missing).
   rewrite Hm. cbn [app existsb negb andb].
   destruct (bytes_eqb (dsha sha256 (read_n (io s1) h CHUNK)) e) eqn:E.
@@ -1618,32 +1925,42 @@ End OpenMissing.
 Section CloseReopen.
 Variable sha256 : bytes -> bytes.
 
-(* close writes exactly the chain in memory; reopening a chain that links (and starts with the genesis
-   block) loads exactly what was stored: same bytes, same length *)
-Theorem close_reopen_exact c s f hs :
-  io s = concat hs -> Forall (fun x : bytes => length x = HS) hs -> linked sha256 hs ->
-  (forall x, nth_error hs 0 = Some x -> repair_genesis_ok sha256 c x = true) ->
-  hclose s f = io s /\
-  load_repair sha256 c (hclose s f) = mkSt (io s) (length hs) [].
-Proof.
-  intros Hio Hlen L G. split; [reflexivity|]. unfold hclose. rewrite Hio.
-  pose proof (open_after_cut sha256 c hs (length (concat hs)) Hlen L G (le_n _)) as H.
-  rewrite firstn_all in H. rewrite H. f_equal.
-  rewrite (concat_length_HS hs Hlen), Nat.mul_comm. apply Nat.div_mul. unfold HS; lia.
-Qed.
-
 (* OLD close (before the fix): 'r+b' overwrite without truncation *)
 Definition hclose_old (s : st) (file : option bytes) : bytes :=
   match file with None => io s | Some f => io s ++ skipn (length (io s)) f end.
 
 (* the witness of chain_invariant_new_witness continued: 3 headers on disk, a 1-header fork at height 1 leaves 2
-   in memory; the old close keeps the third on disk, the next open() loads 3 headers and the chain is broken *)
+   in memory; the old close keeps the third on disk, the next open() finds the broken link and is left with 1 header:
+   a validly stored header is lost at every such restart (before open() checked from genesis it loaded all 3) *)
 Lemma close_old_refuted :
   let old_file := wA0 ++ wA1 ++ wA2 in
   let s := mkSt (wA0 ++ wB1) 2 [] in
-  let reloaded := load_repair toy w_cfg (hclose_old s (Some old_file)) in
-  (hsize reloaded, validate toy toy toy w_cfg None None (chunks 3 (io reloaded)),
-   hsize (load_repair toy w_cfg (hclose s (Some old_file))))
-  = (3, Some RPrev, 2).
+  (length (hclose_old s (Some old_file)) / HS,
+   hsize (load_repair toy toy toy w_rcfg (hclose_old s (Some old_file))),
+   hsize (load_repair toy toy toy w_rcfg (hclose s (Some old_file))))
+  = (3, 1, 2).
 Proof. vm_compute. reflexivity. Qed.
 End CloseReopen.
+
+(* ------------------------------------------------------------------------------------------ *)
+(* the target a header has to meet is the one its own bits encode                             *)
+(* ------------------------------------------------------------------------------------------ *)
+Section PowTarget.
+Variables sha256 sha512 rmd160 : bytes -> bytes.
+
+(* an accepted non-genesis header meets the target encoded by its own bits (lbrycrd: SetCompact(nBits)), which
+   is the demanded retarget value with its low bits cleared -- so it also lies below the exact retarget value *)
+Theorem accepted_meets_bits_target c pp pr x :
+  validate_difficulty c = true ->
+  header_rules sha256 sha512 rmd160 c pp (Some pr) x ->
+  let t := next_target (max_target c) pp (Some pr) in
+  h_bits x = compact t /\
+  (pow_value sha256 sha512 rmd160 x <= from_compact (h_bits x))%N /\
+  from_compact (h_bits x) = N.shiftl (N.shiftr t (cshift t)) (cshift t) /\
+  (pow_value sha256 sha512 rmd160 x <= t)%N.
+Proof.
+  intros Hv [_ H]. destruct (H Hv) as [Hb Hp]. cbn zeta.
+  destruct (compact_facts (next_target (max_target c) pp (Some pr))) as (_ & _ & _ & F & Le & _).
+  split; [exact Hb|]. split; [exact Hp|]. rewrite Hb in *. split; [exact F|]. lia.
+Qed.
+End PowTarget.
